@@ -36,7 +36,12 @@ def cases(draw, max_steps=16):
         part.append(k)
         left -= k
     scn["forcing"]["partition"] = part
-    scn["ibm"]["deactivate"] = []  # 'active' is not part of the output, hence not restartable state
+    # the `active` flag is restartable state only when it is written to the file (as 0 / 1 bytes) and named among
+    # the warm-start variables; otherwise nothing switches particles off in these runs
+    if draw(st.sampled_from([False, False, True])) and scn["ibm"]["deactivate"]:
+        scn["output"]["active_out"] = True
+    else:
+        scn["ibm"]["deactivate"] = []
     # state variable stored packed in the restart file (lossless: age counts whole steps)
     scn["output"]["pack_age"] = draw(st.sampled_from([None, None, [0.25, -3.0], [0.5, 0.0]]))
     for r in scn["release"]["rows"]:
@@ -107,6 +112,8 @@ def oracle(scn) -> core.CaseResult:
     res.cls(scn["tracker"]["advection"])
     if scn["output"].get("pack_age"):
         res.cls("packed_state_variable_in_restart_file")
+    if scn["output"].get("active_out"):
+        res.cls("particles_switched_off_flag_in_restart_file")
     with e2e.workdir() as d0:
         r0, m0 = sim.run(d0, scn, record_output=True)
         if not res.check(r0["status"] == "ok", "base_run_fails", f"{r0['exc']}\n{(r0['tb'] or '')[-500:]}"):
@@ -136,6 +143,8 @@ def oracle(scn) -> core.CaseResult:
                 conf = m1["conf"]
                 del conf["time"]["start"]
                 wvars = ["tag", "age"] + (["temp"] if scn["forcing"]["temp"] else []) + list(scn["pvars"])
+                if scn["output"].get("active_out"):
+                    wvars.append("active")
                 conf["warm_start"] = {"filename": str(d0 / wname), "variables": wvars}
                 e2e.write_yaml(conf, path)
                 r1 = e2e.run_main(path)
